@@ -412,3 +412,16 @@ Theorem C10_url_known_class_witnesses :
   /\ url_plain [100; 105; 114; 47; 102; 46; 116; 120; 116] = true.
 Proof. vm_compute. repeat split; reflexivity. Qed.
 Print Assumptions C10_url_known_class_witnesses.
+
+(* Target names written with the unreserved characters (letters, digits, '_', '-', '.', '~') and '/': whatever
+   TargetName::new makes of such a relative name - '.' and '..' components resolved, repeated slashes dropped - is a
+   plain file name, alone and behind the hex digest of a consistent-snapshot repository. For these names nothing is in
+   the known class: C10_published_target_found and C19_cached_target_served apply. *)
+Theorem C10_safe_names_are_plain : forall name r,
+  forallb (fun c => unreserved c || (c =? 47)) name = true ->
+  match name with c :: _ => c =? 47 | [] => false end = false ->
+  clean_name name = inr r ->
+  url_plain r = true
+  /\ forall h, h <> [] -> forallb is_hexdigit h = true -> url_plain (h ++ 46 :: r) = true.
+Proof. exact safe_name_plain. Qed.
+Print Assumptions C10_safe_names_are_plain.
